@@ -546,9 +546,97 @@ struct Gen<'a> {
     rules: BTreeSet<String>,
     ctx: String,
     canary: bool,
+    // anchor fingerprints: recorded on the pinned tree (sidecar file), re-checked on every run so that an edit
+    // which SHIFTS the ordinals of anonymous nodes re-anchors or ends undecided - never misplaces a contract
+    recorded: &'a BTreeMap<String, (String, usize, usize, usize, usize)>,
+    observed: BTreeMap<String, (String, usize, usize, usize, usize)>,
+    key_prefix: String,
+    key_seen: BTreeMap<String, usize>,
+}
+
+fn fingerprint(scan: &Scan, n: &Node) -> String {
+    // kind | name | the names mentioned inside the node (identifiers, callees, fields, bindings), in order.
+    // Operators and literals are deliberately not part of it.
+    let mut names: Vec<&str> = vec![];
+    for m in &scan.nodes {
+        if m.range.start >= n.range.start && m.range.end <= n.range.end && !(m.range == n.range && m.kind == n.kind) {
+            if matches!(m.kind, "let" | "call" | "mcall" | "macro" | "field" | "struct" | "path" | "assign") && !m.name.is_empty() {
+                names.push(&m.name);
+                if names.len() >= 12 {
+                    break;
+                }
+            }
+        }
+    }
+    format!("{}|{}|{}", n.kind, n.name, names.join(","))
 }
 
 impl<'a> Gen<'a> {
+    /// Resolve a single anchor with fingerprint protection. `cands` = the candidate nodes in pre-order.
+    fn pick(&mut self, scan: &Scan, cands: Vec<&Node>, k: usize, named: bool, what: &str, ctx: &str) -> Node {
+        let base = format!("{}|{}", self.key_prefix, what);
+        let idx = self.key_seen.entry(base.clone()).or_insert(0);
+        let key = format!("{}|{}", base, *idx);
+        *idx += 1;
+        // the ordinal recorded on the tree where the unit last verified supersedes the one written in the unit
+        // (the unit text keeps the ordinal of the tree it was written against)
+        let k = if named { k } else { self.recorded.get(&key).map(|r| r.4).unwrap_or(k) };
+        let at_k = cands.get(k).copied();
+        if named {
+            return match at_k {
+                Some(n) => n.clone(),
+                None => undecided(&format!("{ctx}: lost anchor `{what}` ({} candidates)", cands.len())),
+            };
+        }
+        let rec = self.recorded.get(&key).cloned();
+        let chosen: &Node = match rec {
+            None => match at_k {
+                Some(n) => n,
+                None => undecided(&format!("{ctx}: lost anchor `{what}` ({} candidates)", cands.len())),
+            },
+            Some((fp, count, rank, nsame, _ord)) => {
+                let same: Vec<&Node> = cands.iter().copied().filter(|n| fingerprint(scan, n) == fp).collect();
+                let at_k_rank = at_k.and_then(|n| same.iter().position(|m| m.range == n.range));
+                if at_k.is_some() && at_k_rank == Some(rank) {
+                    at_k.unwrap()
+                } else if cands.len() == count && at_k.is_some() {
+                    // same number of such nodes: the anchored node was edited in place, not moved
+                    at_k.unwrap()
+                } else if same.len() == nsame && rank < same.len() {
+                    self.log.push(json!({"rule": "re-anchored", "file": self.repo_file, "line": self.line_of(same[rank].range.start), "old": what, "note": "ordinal shifted by an edit; node found again by its fingerprint (and rank among look-alikes)"}));
+                    same[rank]
+                } else if same.len() == 1 {
+                    self.log.push(json!({"rule": "re-anchored", "file": self.repo_file, "line": self.line_of(same[0].range.start), "old": what, "note": "ordinal shifted by an edit; node found again by its fingerprint"}));
+                    same[0]
+                } else {
+                    undecided(&format!("{ctx}: anchor `{what}` moved: {} nodes of that kind now (recorded {}), {} match its fingerprint (recorded {})", cands.len(), count, same.len(), nsame))
+                }
+            }
+        };
+        let cfp = fingerprint(scan, chosen);
+        let same: Vec<&&Node> = cands.iter().filter(|n| fingerprint(scan, n) == cfp).collect();
+        let rank = same.iter().position(|n| n.range == chosen.range).unwrap_or(0);
+        let ord = cands.iter().position(|n| n.range == chosen.range && n.kind == chosen.kind).unwrap_or(k);
+        self.observed.insert(key, (cfp, cands.len(), rank, same.len(), ord));
+        chosen.clone()
+    }
+
+    /// `KIND [NAME] [#k]` -> one node
+    fn pick_anchor(&mut self, scan: &Scan, anchor: &str, directive: &str, ctx: &str) -> Node {
+        let mut a = anchor.trim().to_string();
+        let mut k = 0usize;
+        if let Some(p) = a.rfind('#') {
+            k = a[p + 1..].trim().parse().unwrap_or_else(|_| undecided(&format!("{ctx}: bad anchor ordinal in `{anchor}`")));
+            a.truncate(p);
+        }
+        let mut it = a.split_whitespace();
+        let kind = it.next().unwrap_or("").to_string();
+        let name = it.next().unwrap_or("").to_string();
+        let cands: Vec<&Node> = scan.nodes.iter().filter(|n| n.kind == kind && (name.is_empty() || n.name == name)).collect();
+        let named = !name.is_empty() && kind != "binop" || matches!(kind.as_str(), "start" | "end");
+        self.pick(scan, cands, k, named, &format!("{directive} {}", anchor.trim()), ctx)
+    }
+
     fn line_of(&self, byte: usize) -> usize {
         self.src[..byte].bytes().filter(|b| *b == b'\n').count() + 1
     }
@@ -661,15 +749,15 @@ impl<'a> Gen<'a> {
             self.body_sections(&scan, spec, &ctx);
             let sub = sub.unwrap();
             let region = if let Some(a) = sub.strip_prefix("block ") {
-                let n = resolve(&scan, a, false, &ctx)[0].clone();
+                let n = self.pick_anchor(&scan, a, "region-block", &ctx);
                 let Some(b) = n.block else { undecided(&format!("{ctx}: anchor `{a}` has no block")) };
                 b.start + 1..b.end - 1
             } else if let Some(a) = sub.strip_prefix("expr ") {
-                resolve(&scan, a, false, &ctx)[0].range.clone()
+                self.pick_anchor(&scan, a, "region-expr", &ctx).range.clone()
             } else if let Some(a) = sub.strip_prefix("stmts ") {
                 let (from, to) = match a.find("..") { Some(p) => (a[..p].trim(), a[p + 2..].trim()), None => (a.trim(), a.trim()) };
-                let f = resolve(&scan, from, false, &ctx)[0].stmt.clone();
-                let t = resolve(&scan, to, false, &ctx)[0].stmt.clone();
+                let f = self.pick_anchor(&scan, from, "region-from", &ctx).stmt.clone();
+                let t = self.pick_anchor(&scan, to, "region-to", &ctx).stmt.clone();
                 if t.end < f.start { undecided(&format!("{ctx}: statement range `{a}` is reversed")) }
                 f.start..t.end
             } else {
@@ -782,11 +870,11 @@ impl<'a> Gen<'a> {
                 "loop" => {
                     let k: usize = s.arg.trim().parse().unwrap_or_else(|_| undecided(&format!("{sctx}: bad loop ordinal")));
                     let loops: Vec<&Node> = scan.nodes.iter().filter(|n| matches!(n.kind, "while" | "for" | "loop")).collect();
-                    let Some(n) = loops.get(k) else { undecided(&format!("{sctx}: lost anchor loop {k} ({} loops)", loops.len())) };
+                    let n = self.pick(scan, loops, k, false, &format!("loop {k}"), &sctx);
                     self.ins(n.header_end.unwrap(), format!("\n{}", s.text), o, &format!("loop{k}"));
                 }
                 "closure" => {
-                    let n = resolve(scan, &format!("closure #{}", s.arg.trim()), false, &sctx)[0].clone();
+                    let n = self.pick_anchor(scan, &format!("closure #{}", s.arg.trim()), "closure", &sctx);
                     self.ins(n.header_end.unwrap(), format!(" {}", s.text), o, &format!("closure{}", s.arg.trim()));
                     if n.block.is_none() {
                         let b = n.body.clone().unwrap();
@@ -798,7 +886,7 @@ impl<'a> Gen<'a> {
                 "before" | "after" | "before-each" | "after-each" => {
                     let all = s.kind.ends_with("-each");
                     let before = s.kind.starts_with("before");
-                    let nodes: Vec<Node> = resolve(scan, &s.arg, all, &sctx).into_iter().cloned().collect();
+                    let nodes: Vec<Node> = if all { resolve(scan, &s.arg, true, &sctx).into_iter().cloned().collect() } else { vec![self.pick_anchor(scan, &s.arg, &s.kind, &sctx)] };
                     for n in nodes {
                         let at = if before { n.stmt.start } else { n.stmt.end };
                         let sec = format!("{}:{}", s.kind, s.arg);
@@ -810,7 +898,7 @@ impl<'a> Gen<'a> {
                     }
                 }
                 "inside-start" | "inside-end" => {
-                    let n = resolve(scan, &s.arg, false, &sctx)[0].clone();
+                    let n = self.pick_anchor(scan, &s.arg, &s.kind, &sctx);
                     let Some(b) = n.block else { undecided(&format!("{sctx}: anchor `{}` has no block", s.arg)) };
                     let sec = format!("{}:{}", s.kind, s.arg);
                     if s.kind == "inside-start" {
@@ -827,7 +915,7 @@ impl<'a> Gen<'a> {
                     if !self.rules.contains(&rule) {
                         undecided(&format!("{sctx}: rule {rule} not enabled for this item"));
                     }
-                    let n = resolve(scan, &anchor, false, &sctx)[0].clone();
+                    let n = self.pick_anchor(scan, &anchor, &s.kind, &sctx);
                     let sec = format!("{}:{}", s.kind, anchor);
                     match s.kind.as_str() {
                         "wrap" => {
@@ -892,8 +980,8 @@ impl<'a> Gen<'a> {
                         undecided(&format!("{sctx}: rule {rule} not enabled for this item"));
                     }
                     let Some(bar) = rest.find('|') else { undecided(&format!("{sctx}: //@splice needs OUTER | INNER")) };
-                    let outer = resolve(scan, rest[..bar].trim(), false, &sctx)[0].clone();
-                    let inner = resolve(scan, rest[bar + 1..].trim(), false, &sctx)[0].clone();
+                    let outer = self.pick_anchor(scan, rest[..bar].trim(), "splice-outer", &sctx);
+                    let inner = self.pick_anchor(scan, rest[bar + 1..].trim(), "splice-inner", &sctx);
                     let inner_r = if inner.kind == "closure" { inner.body.clone().unwrap() } else { inner.range.clone() };
                     if !(outer.range.start <= inner_r.start && inner_r.end <= outer.range.end) {
                         undecided(&format!("{sctx}: //@splice inner node is not inside the outer node"));
@@ -949,6 +1037,20 @@ impl<'a> Gen<'a> {
             }
             fn visit_expr(&mut self, e: &'ast syn::Expr) {
                 match e {
+                    syn::Expr::Closure(c) if self.g.rules.contains("R14") => {
+                        for (k, inp) in c.inputs.iter().enumerate() {
+                            let w = match inp {
+                                syn::Pat::Wild(w) => Some(br(w.span())),
+                                syn::Pat::Type(t) => if let syn::Pat::Wild(w) = &*t.pat { Some(br(w.span())) } else { None },
+                                _ => None,
+                            };
+                            if let Some(r) = w {
+                                self.g.rule_log("R14", &r, "wildcard closure parameter named");
+                                let o = self.g.gen("R14");
+                                self.g.rep(r, format!("_c{k}"), o, "rewrite");
+                            }
+                        }
+                    }
                     syn::Expr::ForLoop(fl) if self.g.rules.contains("R12") => {
                         if let syn::Expr::MethodCall(mc) = &*fl.expr {
                             if mc.method == "chain" && mc.args.len() == 1 {
@@ -1065,6 +1167,8 @@ fn main() {
     let mut outp = String::new();
     let mut mapp = String::new();
     let mut canary = false;
+    let mut anchors_path = String::new();
+    let mut record_path = String::new();
     let mut i = 3;
     while i < args.len() {
         match args[i].as_str() {
@@ -1072,11 +1176,30 @@ fn main() {
             "--out" => { outp = args[i + 1].clone(); i += 2; }
             "--map" => { mapp = args[i + 1].clone(); i += 2; }
             "--canary" => { canary = true; i += 1; }
+            "--anchors" => { anchors_path = args[i + 1].clone(); i += 2; }
+            "--record-anchors" => { record_path = args[i + 1].clone(); i += 2; }
             x => undecided(&format!("unknown argument {x}")),
         }
     }
     let mut unit = Unit { name: String::new(), properties: vec![], meta: BTreeMap::new(), chunks: vec![] };
     parse_unit(&args[2], &mut unit);
+    let mut recorded: BTreeMap<String, (String, usize, usize, usize, usize)> = BTreeMap::new();
+    if !anchors_path.is_empty() {
+        if let Ok(t) = std::fs::read_to_string(&anchors_path) {
+            if let Ok(serde_json::Value::Object(m)) = serde_json::from_str::<serde_json::Value>(&t) {
+                for (k, v) in m {
+                    if let (Some(fp), Some(c)) = (v.get(0).and_then(|x| x.as_str()), v.get(1).and_then(|x| x.as_u64())) {
+                        let rank = v.get(2).and_then(|x| x.as_u64()).unwrap_or(0) as usize;
+                        let nsame = v.get(3).and_then(|x| x.as_u64()).unwrap_or(1) as usize;
+                        let ord = v.get(4).and_then(|x| x.as_u64()).map(|x| x as usize);
+                        let Some(ord) = ord else { continue };
+                        recorded.insert(k, (fp.to_string(), c as usize, rank, nsame, ord));
+                    }
+                }
+            }
+        }
+    }
+    let mut observed_all: BTreeMap<String, (String, usize, usize, usize, usize)> = BTreeMap::new();
     let mut pieces: Vec<Piece> = vec![];
     let mut rule_log: Vec<serde_json::Value> = vec![];
     let mut items_log: Vec<serde_json::Value> = vec![];
@@ -1104,7 +1227,8 @@ fn main() {
                     }
                 }
                 let found = find_in_items(src, &file.items, &path, &ctx);
-                let mut g = Gen { repo_file: ex.file.clone(), src, edits: vec![], seq: 0, log: vec![], rules: ex.rules.clone(), ctx: ctx.clone(), canary };
+                let mut g = Gen { repo_file: ex.file.clone(), src, edits: vec![], seq: 0, log: vec![], rules: ex.rules.clone(), ctx: ctx.clone(), canary,
+                    recorded: &recorded, observed: BTreeMap::new(), key_prefix: format!("{}|{}", ex.file, ex.path.join(" / ")), key_seen: BTreeMap::new() };
                 let spec_for = |name: &str| ex.fns.iter().find(|f| f.name == name || f.name.is_empty());
                 let (region, func_label): (Range<usize>, String);
                 let mut prefix = String::new();
@@ -1296,6 +1420,7 @@ fn main() {
                 if !suffix.is_empty() { glue(&mut pieces, &suffix, "impl-close"); }
                 glue(&mut pieces, "\n", "marker");
                 items_log.push(json!({"file": ex.file, "path": ex.path.join(" / "), "lines": [line, line_end], "bytes": [region.start, region.end], "rules": ex.rules, "unit_line": ex.line}));
+                observed_all.extend(std::mem::take(&mut g.observed));
                 rule_log.extend(g.log);
             }
         }
@@ -1314,6 +1439,10 @@ fn main() {
         map.push(json!({"s": start, "e": text.len(), "o": o, "fn": p.func, "sec": p.section}));
     }
     std::fs::write(&outp, &text).unwrap_or_else(|e| undecided(&format!("cannot write {outp}: {e}")));
+    if !record_path.is_empty() {
+        let m: serde_json::Map<String, serde_json::Value> = observed_all.iter().map(|(k, (fp, c, r, n, o))| (k.clone(), json!([fp, c, r, n, o]))).collect();
+        std::fs::write(&record_path, serde_json::to_string_pretty(&serde_json::Value::Object(m)).unwrap()).unwrap_or_else(|e| undecided(&format!("cannot write {record_path}: {e}")));
+    }
     let m = json!({"unit": unit.name, "properties": unit.properties, "meta": unit.meta, "pieces": map, "rewrites": rule_log, "items": items_log});
     std::fs::write(&mapp, serde_json::to_string(&m).unwrap()).unwrap_or_else(|e| undecided(&format!("cannot write {mapp}: {e}")));
 }
